@@ -4207,3 +4207,60 @@ func sharedGrowArith(c *an.Ctx, rule string, prefixes ...string) (examined int) 
 	}
 	return examined
 }
+
+// sharedNoNilInterfaceResult is the rule for converters that produce a
+// behaviour object (an interface value: an authenticator, a rate limiter, an
+// access profile, a blocking mode): on a path that reports no error they return
+// a usable value, never a nil interface -- the consumers call methods on the
+// result without a nil test (the sibling decoder of the other codec returns the
+// "allow everything" / "empty" implementation in the same case).  Returns the
+// number of returns examined.
+func sharedNoNilInterfaceResult(c *an.Ctx, rule string, allowed map[string]string, prefixes ...string) (examined int) {
+	errType := types.Universe.Lookup("error").Type()
+	for _, fn := range c.AllFns {
+		if fn.Blocks == nil || c.IsTestFile(fn.Pos()) || fn.Parent() != nil || strings.Contains(c.Pos(fn.Pos()), ".pb.go:") {
+			continue
+		}
+		k := an.FnKey(fn)
+		in := false
+		for _, p := range prefixes {
+			if strings.HasPrefix(k, p) {
+				in = true
+			}
+		}
+		if !in || !isConverterName(fn.Name()) {
+			continue
+		}
+		res := fn.Signature.Results()
+		if res.Len() == 0 {
+			continue
+		}
+		if _, isIface := res.At(0).Type().Underlying().(*types.Interface); !isIface || types.Identical(res.At(0).Type(), errType) {
+			continue
+		}
+		// protobuf oneof wrappers are data, not behaviour: only interfaces declared outside the codec packages count
+		if named := an.NamedOf(res.At(0).Type()); named != nil && named.Obj().Pkg() != nil && named.Obj().Pkg() == fn.Pkg.Pkg {
+			continue
+		}
+		for _, r := range an.Returns(fn) {
+			if len(r.Results) == 0 || !an.IsNilConst(r.Results[0]) {
+				continue
+			}
+			if n := len(r.Results); n >= 2 && types.Identical(res.At(n-1).Type(), errType) && !an.IsNilConst(r.Results[n-1]) {
+				continue
+			}
+			examined++
+			c.Analysed(k)
+			if allowed[k] != "" {
+				c.Ok(rule, k+" returns a usable "+an.TypeName(res.At(0).Type()), r.Pos(), "exception: "+allowed[k])
+				continue
+			}
+			c.Bad(rule, k+" returns a usable "+an.TypeName(res.At(0).Type()), r.Pos(),
+				"a nil %s is returned without an error: the consumers call its methods without a nil test (a request that reaches them panics)", an.TypeName(res.At(0).Type()))
+		}
+		if examined == 0 {
+			continue
+		}
+	}
+	return examined
+}
